@@ -20,7 +20,8 @@ RULE = (
     "middle / last / inside a section with outline level 0-10 and use_default_styles T/F; histories: fill; "
     "fill again; edit / insert / delete a heading; fill; in a third of the documents a second TOC with its own "
     "title and level, first or last, filled in between (filling one index must leave the other C14N-identical "
-    "and keep its own title); the outline level changed on the live TOC between two fills (also back to 0 = "
+    "and keep its own title); fill(other_document) while the TOC still lives in this one (the given document is "
+    "the one listed); the outline level changed on the live TOC between two fills (also back to 0 = "
     "no limit). One evaluation = one fill judged: index body = kept "
     "index-title (original title) followed by exactly one text:p per heading with level <= outline level "
     "(0 = 10), in document order, whose ODF reading is '<number> <reading of the heading>' with numbers from "
@@ -165,7 +166,7 @@ def heading_classes(n):
     return k
 
 
-def judge_fill(doc, toc, spec, fill_index, use_default_styles, title=None, outline=None, which="toc1"):
+def judge_fill(doc, toc, spec, fill_index, use_default_styles, title=None, outline=None, which="toc1", explicit=False):
     """-> (violations [(mechanism, detail, known)], classes)"""
     import copy
 
@@ -176,7 +177,10 @@ def judge_fill(doc, toc, spec, fill_index, use_default_styles, title=None, outli
     toc_n = c09.node(toc)
     others = [t for t in body_n.iter(TX + "table-of-content") if t is not toc_n]
     others_before = [etree.tostring(copy.deepcopy(t), method="c14n") for t in others]
-    toc.fill(use_default_styles=use_default_styles)
+    if explicit:
+        toc.fill(doc, use_default_styles=use_default_styles)  # the document to list is given: it wins over where the TOC lives
+    else:
+        toc.fill(use_default_styles=use_default_styles)
     toc_n = c09.node(toc)
     for t, b in zip(others, others_before):
         if etree.tostring(copy.deepcopy(t), method="c14n") != b:
@@ -258,6 +262,18 @@ def run_case(spec, res):
             (primary if which == "toc1" else doc._vf_toc2).outline_level = step[1]
             outline[which] = step[1]
             continue
+        if step == "fill-for-another-document":
+            # the TOC still lives in this document but is asked to list another one (then typically moved there)
+            other_spec = dict(spec, headings=spec["other_headings"], toc2=None, toc_pos="last", in_section=False, table=False)
+            other_doc, other_toc = build_document(other_spec)
+            other_toc.delete()
+            v, cls = judge_fill(other_doc, primary, spec, fi, uds, title=spec["title"], outline=outline["toc1"], which="toc1-for-other-document", explicit=True)
+            if res is not None:
+                res.judge()
+                res.cls(("fill-other-document",) + tuple(cls[1:4]), True)
+            if v:
+                return v
+            continue
         if step in ("fill", "fill2"):
             which = "toc2" if step == "fill2" and spec.get("toc2") else "toc1"
             toc = primary if which == "toc1" else doc._vf_toc2
@@ -325,9 +341,15 @@ def gen_spec(rng):
         k = rng.randint(1, len(history))
         history.insert(k, ["outline", rng.choice([0, 0, 1, 2, 3, 10]), rng.choice(["toc1", "toc2"])])
         history.insert(k + 1, rng.choice(["fill", "fill2"]) if toc2 else "fill")
+    other_headings = []
+    if rng.random() < 0.2:
+        other_headings = [gen_heading(rng) for _ in range(rng.choice([1, 2, 3, 5]))]
+        history.insert(rng.randint(0, len(history)), "fill-for-another-document")
+        history.append("fill")
     if rng.random() < 0.6:
         history.append("script")
     return {
+        "other_headings": other_headings,
         "toc2": toc2,
         "headings": headings,
         "title": rng.choice(["Table of Contents", "Sommaire é", "TOC"]),
